@@ -101,6 +101,8 @@ func (r *ValueRange) Diff() float64 {
 
 func (r *ValueRange) ScaleEqually(scale float64) *ValueRange {
 	dif := r.Diff() / 2
+	// scaling about the centre by a negative factor covers the same interval as by its absolute value
+	scale = math.Abs(scale)
 	return &ValueRange{
 		Min: r.Min + dif - dif*scale,
 		Max: r.Max - dif + dif*scale,
